@@ -328,6 +328,15 @@ class repeated_node_property(base_rw_property[RepeatedNodeWrapper[_M], base.RawT
         replace_node(repeated, value.repeated)
         self._inner_field.__set__(instance, value.repeated)
         instance.__dict__[self._attr] = value
+        drop_cached_views(instance)
+
+
+def drop_cached_views(instance: object) -> None:
+    """Forgets the cached views of a model (they are bound to the wrappers that existed when they were first read)."""
+    for cls in type(instance).__mro__:
+        for name, attr in vars(cls).items():
+            if isinstance(attr, cached_custom_property):
+                instance.__dict__.pop(name, None)
 
 
 def _default_fset(instance: _U, value: _V) -> None:
